@@ -239,8 +239,8 @@ def dict_pairs(d):
     return [(k, v.documentation.instruction_name()) for k, v in d.items()]
 
 
-def parser_level_unknown(live, kind, section, name):
-    """Does the real document parser answer `[section]\\nNAME` with UnknownInstructionException (found by walking the
+def parser_level(live, kind, section, name):
+    """'ok' | 'unknown-instruction' | 'other-error'.  Does the real document parser answer `[section]\\nNAME` with UnknownInstructionException (found by walking the
     chain of causes/contexts/wrapped exceptions of what it raised)?  kind: 'case' | 'suite'."""
     import pathlib
     from exactly_lib.section_document.element_parsers.instruction_parser_exceptions import UnknownInstructionException
@@ -265,11 +265,17 @@ def parser_level_unknown(live, kind, section, name):
                 continue
             seen.add(id(e))
             if isinstance(e, UnknownInstructionException):
-                return True
+                return 'unknown-instruction'
             todo += [e.__cause__, e.__context__]
             todo += [v for v in getattr(e, '__dict__', {}).values() if isinstance(v, BaseException)]
-        return False
-    return False
+        return 'other-error'
+    return 'ok'
+
+
+def parser_level_unknown(live, kind, section, name):
+    return parser_level(live, kind, section, name) == 'unknown-instruction'
+
+
 
 
 def perturbations(name):
@@ -389,9 +395,9 @@ def build_inventory(live):
     prog_dicts = dict(case_phase_dicts(live))
     phase_helps = list(app.test_case_help.phase_helps_in_order_of_execution)
     phase_names = [ph.name.plain for ph in phase_helps]
-    for pn in prog_dicts:
-        if pn not in phase_names:
-            raise RuntimeError('phase %r has a parser dictionary but no help (fail-closed)' % pn)
+    # a phase the parser knows but the help does not (or vice versa) is an OBSERVATION: it gets its own entry (in_help /
+    # has_dict) and the property predicate reports its instructions and help requests with concrete inputs
+    program_only = [pn for pn in prog_dicts if pn not in phase_names]
     all_names = []
     for d in list(prog_dicts.values()) + [live.suite_def.configuration_section_instructions]:
         for k, dn in dict_pairs(d):
@@ -425,10 +431,10 @@ def build_inventory(live):
             if directive_recognised(live, n):
                 continue  # a directive never reaches the instruction parser: not an instruction-name probe
             a1 = orc.accepted(n)
-            a2 = not parser_level_unknown(live, kind, section, n)
             if a1 is None:
                 continue
-            if a1 != a2:
+            a2 = parser_level(live, kind, section, n)
+            if (a1 and a2 == 'unknown-instruction') or (not a1 and a2 == 'ok'):
                 raise RuntimeError('acceptance observations disagree for %r in %s [%s]: main program %r, section parser %r '
                                    '(fail-closed)' % (n, kind, section, a1, a2))
             if a1:
@@ -436,15 +442,17 @@ def build_inventory(live):
         return acc
 
     inv.phases = []
-    for ph in phase_helps:
-        pn = ph.name.plain
-        e = dict(name=pn, has_dict=pn in prog_dicts, has_help_instr=bool(ph.has_instructions),
+    for ph in phase_helps + program_only:
+        in_help = not isinstance(ph, str)
+        pn = ph.name.plain if in_help else ph
+        has_instr = bool(ph.has_instructions) if in_help else False
+        e = dict(name=pn, in_help=in_help, has_dict=pn in prog_dicts, has_help_instr=has_instr,
                  dict=[], accepted=[], help_struct=[], help_keys=[], help_rendered=[], help_rendered_all=[])
         if pn in prog_dicts:
             e['dict'] = dict_pairs(prog_dicts[pn])
-        if pn in prog_dicts or ph.has_instructions:
+        if pn in prog_dicts or has_instr:
             e['accepted'] = drive('case', pn)
-        if ph.has_instructions:
+        if has_instr:
             e['help_struct'] = [x.instruction_name() for x in ph.instruction_set.instruction_documentations]
             e['help_keys'] = list(ph.instruction_set.name_2_description.keys())
             out = _ok(live.help([pn, inv.keywords['instructions']]), 'help %s instructions' % pn).out
@@ -702,9 +710,9 @@ def enumerate_requests(live, inv):
     for p in inv.phases:
         reqs.append(([p['name']], True))
         reqs.append(([p['name'], BOGUS], False))
-        if p['has_help_instr']:
+        if p['has_help_instr'] or p['has_dict']:
             reqs.append(([p['name'], kw['instructions']], True))
-            for n in p['help_struct']:
+            for n in p['help_struct'] + [a for a in p['accepted'] if a not in p['help_struct']]:
                 reqs.append(([p['name'], n], True))
                 if n not in seen_names:
                     seen_names.append(n)
@@ -718,7 +726,7 @@ def enumerate_requests(live, inv):
     for e in inv.entities:
         reqs.append(([e['type']], True))
         reqs.append(([e['type'], BOGUS], False))
-        for n in e['help_struct']:
+        for n in e['help_struct'] + [a for a in e['accepted'] + e['help_rendered'] if a not in e['help_struct']]:
             reqs.append(([e['type']] + n.split(' '), True))
             if ' ' in n:
                 reqs.append(([e['type'], n], True))
@@ -795,10 +803,10 @@ def inventory_to_coq(inv):
              % tuple(cs(kw[k]) for k in ('help', 'htmldoc', 'case', 'suite', 'symbol', 'spec', 'instructions')))
     ph = []
     for p in inv.phases:
-        ph.append('  {| pi_name := %s; pi_has_dict := %s; pi_dict := %s;\n     pi_accepted := %s; pi_has_help_instr := %s;\n'
+        ph.append('  {| pi_name := %s; pi_in_help := %s; pi_has_dict := %s; pi_dict := %s;\n     pi_accepted := %s; pi_has_help_instr := %s;\n'
                   '     pi_help_struct := %s;\n     pi_help_keys := %s;\n     pi_help_rendered := %s;\n'
                   '     pi_help_rendered_all := %s;\n     pi_modes := %s |}'
-                  % (cs(p['name']), cbool(p['has_dict']), cpairs(p['dict']), csl(p['accepted']), cbool(p['has_help_instr']),
+                  % (cs(p['name']), cbool(p['in_help']), cbool(p['has_dict']), cpairs(p['dict']), csl(p['accepted']), cbool(p['has_help_instr']),
                      csl(p['help_struct']), csl(p['help_keys']), csl(p['help_rendered']), csl(p['help_rendered_all']),
                      cmodes(p['modes'])))
     L.append('Definition live_phases : list phase_inv := [\n%s\n].' % ';\n'.join(ph))
@@ -1120,6 +1128,12 @@ def _run(ctx, res, live, sizes=None):
         res.count('help argc=%d' % len(argv))
 
     # 2. instruction names through the real parsers of every phase / suite section
+    listed = {}
+    for p in inv.phases:
+        listed[('case', p['name'])] = {n: {'help data structure': n in p['help_struct'],
+                                           '`exactly help %s instructions`' % p['name']: n in p['help_rendered'],
+                                           '`exactly help instructions` under [%s]' % p['name']: n in p['help_rendered_all']}
+                                       for n in set(p['accepted'] + p['help_struct'] + p['help_rendered'] + p['help_rendered_all'])}
     for kind, sections in (('case', [p['name'] for p in inv.phases if p['has_dict'] or p['has_help_instr']]),
                            ('suite', [s['name'] for s in inv.suite_sections if s['takes_names']])):
         for sec in sections:
@@ -1137,15 +1151,15 @@ def _run(ctx, res, live, sizes=None):
                 a1 = orc.accepted(name)
                 if a1 is None:
                     continue
-                a2 = not parser_level_unknown(live, kind, sec, name)
-                if a1 != a2:
+                a2 = parser_level(live, kind, sec, name)
+                if (a1 and a2 == 'unknown-instruction') or (not a1 and a2 == 'ok'):
                     res.errors.append('acceptance observations disagree for %r in %s [%s]: main program %r, section parser %r'
                                       % (name, kind, sec, a1, a2))
                     continue
                 ctor = 'CAcceptCase' if kind == 'case' else 'CAcceptSuite'
                 add('(%s %s %s %s)' % (ctor, cs(sec), cs(name), cbool(a1)),
                     {'kind': 'accept-' + kind, 'section': sec, 'name': name, 'accepted_by_program': a1,
-                     'file': '[%s]\n%s\n' % (sec, name)},
+                     'file': '[%s]\n%s\n' % (sec, name), 'listed': listed.get((kind, sec), {}).get(name)},
                     (kind, sec, name))
                 res.count('accept: ' + ('accepted' if a1 else 'unknown instruction'))
 
@@ -1164,11 +1178,14 @@ def _run(ctx, res, live, sizes=None):
 
     # 4. entities and hrefs of the inventory, as cases, so that a violation is reported with its concrete input
     for e in inv.entities:
-        names = list(e['help_struct']) + [n for n in e['accepted'] if n not in e['help_struct']]
+        names = list(e['help_struct'])
+        names += [n for i, n in enumerate(e['accepted'] + e['help_rendered'])
+                  if n not in names and n not in (e['accepted'] + e['help_rendered'])[:i]]
         for n in names:
             add('(CEntity %s %s %s)' % (cs(e['type']), cs(n), cbool(n in e['accepted'])),
                 {'kind': 'entity', 'type': e['type'], 'name': n, 'accepted_by_program': n in e['accepted'],
-                 'listed_by_help': n in e['help_struct'], 'how_accepted_is_observed': e['how']},
+                 'listed_by_help': n in e['help_struct'], 'displayed_by_exactly_help_TYPE': n in e['help_rendered'],
+                 'command': 'exactly help %s' % e['type'], 'how_accepted_is_observed': e['how']},
                 ('entity', e['type'], n))
     ids = inv.html_ids
     for h in sorted(set(inv.html_hrefs)):
@@ -1221,15 +1238,18 @@ def _run(ctx, res, live, sizes=None):
 def _explain(js):
     k = js['kind']
     if k == 'help':
-        return ('`%s` asks for something the help lists but was not displayed successfully (exit %r, output %s, exception %r)'
+        return ('`%s` asks for something the help lists or the program accepts; expected exit 0 with output, observed: not displayed successfully (exit %r, output %s, exception %r)'
                 % (js['command'], js['exit_code'], 'non-empty' if js['stdout_non_empty'] else 'EMPTY', js['escaped_exception']))
     if k.startswith('accept'):
-        return ('in section [%s] the program %s the instruction name %r but the help %s it'
+        return ('in section [%s] the program %s the instruction name %r but the help %s it%s'
                 % (js['section'], 'accepts' if js['accepted_by_program'] else 'does not accept', js['name'],
-                   'does not list' if js['accepted_by_program'] else 'lists'))
+                   'does not list' if js['accepted_by_program'] else 'lists',
+                   '' if not js.get('listed') else ' everywhere: %r' % js['listed']))
     if k == 'entity':
-        return ('%s %r: accepted by the program = %r, listed by `exactly help %s` = %r'
-                % (js['type'], js['name'], js['accepted_by_program'], js['type'], js['listed_by_help']))
+        return ('%s %r: accepted by the program = %r; in the help data structure = %r; displayed by `exactly help %s` = %r '
+                '(expected: all three equal)'
+                % (js['type'], js['name'], js['accepted_by_program'], js['listed_by_help'], js['type'],
+                   js['displayed_by_exactly_help_TYPE']))
     if k in ('mode-instruction', 'mode-entity'):
         return ('%s %r: `exactly help` lists it = %r, but run as `%s` the program accepts it = %r (stand-alone `exactly CASE` '
                 'accepts the same case file: %r)'
